@@ -37,7 +37,7 @@ class C05(props.BaseProp):
     id = "C05"
     run_module = "Run.RunBrandes"
     harness_mode = "cent"
-    quick_n, thorough_n = 700, 12000
+    quick_n, thorough_n = 1500, 15000
     shards = 12
     rule = ("graphs handed to new_from_nodes_and_edges: 0-8 nodes (integer names whose sort order differs from "
             "insertion order; some nodes only created by edges, some isolated), 0..2n+1 edges, directed/undirected x "
@@ -127,8 +127,25 @@ class C05(props.BaseProp):
 
 P = props.register(C05())
 P.manifest = {
-    "text": "Unbounded theorems (any adjacency / any graph state, axiom-free): about the definition bc_def (ordered-pair sum of the fraction of shortest paths through v, brute-force path enumeration): endpoints never count, pairs without a path contribute nothing, every enumerated shortest path is a path, <=2 nodes => all values 0, one value per node; the four get_scale cases are the scaling rules of the property (normalised: /((n-1)(n-2)) for n>2, raw undirected: /2); the accumulation step never adds to the source's own entry nor to nodes off the stack; the model returns exactly one entry per node; rayon path = serial path. 'model = rescale(definition)' (Brandes' theorem) is NOT proved for all graphs: it is validated per generated graph inside Coq in exact rationals (observation 52, n<=8) and the implementation is compared with the model on every case.",
-    "note": 'Trusted: Coq kernel + vm_compute; harness/printers/diff (1e-9 on reals). Modelled not verified: IEEE rounding (model in Q), BinaryHeap pop among equal distances (explicit first/last-minimal oracle; observation 51 checks per case that the result does not depend on it), rayon indexed collect (modelled as index-order map, proved equal to the serial loop). A NaN weight in weighted mode is outside the modelled domain (never generated). Missing for the full statement: the Brandes stage invariants and the dependency recurrence (DESIGN.md F.2). Axioms: none.',
-    "technique": "Coq proof + verified per-case validation against the executable definition + differential "
-                 "correspondence vs vm_compute model + independent definitional oracle on the implementation",
+    "text": "HOP-COUNT MODE PROVED IN FULL (unbounded, axiom-free): for every graph state, the vector returned by the "
+            "transcribed betweenness_centrality (queue BFS stage with D/sigma/P/S, dependency accumulation excluding the "
+            "source, all sources in index order on the serial or the rayon path, rescaling) equals bc_def: the sum over "
+            "ordered pairs (s,t), s<>v<>t, of the fraction of shortest s-t paths (brute-force enumeration of simple paths, "
+            "those of minimal length) through v; raw undirected halved; normalised divided by (n-1)(n-2) for n>2 "
+            "(C05_brandes_hop_count, C05_model_hop_count; via loop invariant of the stage, exactness of the path "
+            "enumeration, Brandes' dependency recurrence and its uniqueness). Also for all graphs: endpoints never count, "
+            "pairs without a path contribute nothing, <=2 nodes => all 0, one entry per node, the four get_scale cases, "
+            "rayon path = serial path, fuel never exhausted. WEIGHTED MODE: 'model = definition' is NOT proved for all "
+            "graphs; it is validated per generated graph inside Coq in exact rationals (observation 52, n<=8).",
+    "note": "Hypothesis of the hop-count theorem: the adjacency read (successors_vec) lists each neighbour once per row and "
+            "all indexes are in range - checked per case (observation 53, sound by C05_rows_check_sound; adj_ok is also "
+            "checked by the model itself). The definition is evaluated on that adjacency; that it represents the stored "
+            "edges is property C03 and is covered here by the independent Python oracle from the edge list. Trusted: Coq "
+            "kernel + vm_compute; harness/printers/diff (1e-9 on reals). Modelled not verified: IEEE rounding (model in Q), "
+            "BinaryHeap pop among equal distances (first/last-minimal oracle; observation 51 checks per case that the "
+            "result does not depend on it), rayon indexed collect (index-order map, proved equal to the serial loop). A "
+            "NaN weight in weighted mode is outside the modelled domain (never generated). Axioms: none.",
+    "technique": "Coq proof (loop invariants, combinatorics of shortest-path counts) + per-case validation against the "
+                 "executable definition for weighted mode + differential correspondence vs vm_compute model + independent "
+                 "definitional oracle on the implementation",
 }
